@@ -74,7 +74,7 @@ if [ ! -x "$OUT" ]; then
   case "$VARIANT" in
     prod) ;;
     hook) FLAGS="$(strip_O "$FLAGS") -O2 -DTINYJAMBU_VERIF";;
-    san)  CC=clang; FLAGS="$(strip_O "$FLAGS") -O1 -g -fno-omit-frame-pointer -fsanitize=address -fsanitize-recover=address -DTINYJAMBU_VERIF";;
+    san)  CC=clang; FLAGS="$(strip_O "$FLAGS") -O1 -g -fno-omit-frame-pointer -fsanitize=address -fsanitize-recover=address -mllvm -asan-opt-same-temp=0 -mllvm -asan-opt=0 -DTINYJAMBU_VERIF";;
     trng-getrandom)  TRNG_FLAVOR=getrandom;  TRNG_MODE=macros;;
     trng-getentropy) TRNG_FLAVOR=getentropy; TRNG_MODE=macros;;
     trng-syscall)    TRNG_FLAVOR=syscall;    TRNG_MODE=macros;;
